@@ -67,12 +67,19 @@ PROGRAMS = {
     "Lq": [("open",), ("setpin", "P0", "P2"), ("login", "P2"), ("close",)],
     "Lr": [("open",), ("login", "P0"), ("setpin", "P0", "P1"), ("sessinfo",), ("close",)],
     "Lx": [("open",), ("login", "PX"), ("login", "P1"), ("sessinfo",), ("close",)],
+    # a private TOKEN key comes into being (C_UnwrapKey) while another thread logs out
+    "Lu": [("open",), ("login", "P0"), ("unwrappriv",), ("close",)],
+    # one thread makes a sensitive session key and has changes to it refused (rolled back); the other one tries to read it
+    "Ls": [("open",), ("mksens",), ("badset",), ("badset",), ("close",)],
+    "Lg": [("open",), ("readsens",), ("readsens",), ("readsens",), ("close",)],
 }
+SENS_VALUE = b"conc-SENSITIVE-session-key-value"[:32]
+UNWRAPPED_SECRET = b"conc-UNWRAPPED-secret-0123456789ab"[:32]
 PINS = {"P0": b"conc-user-pin", "P1": b"conc-pin-one", "P2": b"conc-pin-two2", "PX": b"conc-wrong-pin"}
 
 
 def shared_family(progs):
-    return any(len(c) > 0 and c[0] in ("login", "logout", "setpin", "createpriv") for pr in progs for c in pr)
+    return any(len(c) > 0 and c[0] in ("login", "logout", "setpin", "createpriv", "unwrappriv", "mksens", "badset", "readsens") for pr in progs for c in pr)
 
 
 def conf(wd):
@@ -103,6 +110,17 @@ def prepare(lib, wd):
     p.initialize()
     rv, s = p.open_session(the_slot(p), True)
     assert p.login(s, K.CKU_SO, SO) == 0 and p.init_pin(s, USER) == 0
+    assert p.logout(s) == 0 and p.login(s, K.CKU_USER, USER) == 0
+    # for the "unwrappriv" calls: a public wrapping key on the token and a blob holding the known secret UNWRAPPED_SECRET
+    rv, wk = p.create_object(s, [(K.CKA_CLASS, K.CKO_SECRET_KEY), (K.CKA_KEY_TYPE, K.CKK_AES), (K.CKA_TOKEN, True),
+                                 (K.CKA_PRIVATE, False), (K.CKA_ID, b"wk"), (K.CKA_VALUE, bytes(range(32))), (K.CKA_WRAP, True),
+                                 (K.CKA_UNWRAP, True)])
+    rv2, x = p.create_object(s, [(K.CKA_CLASS, K.CKO_SECRET_KEY), (K.CKA_KEY_TYPE, K.CKK_GENERIC_SECRET), (K.CKA_TOKEN, False),
+                                 (K.CKA_PRIVATE, False), (K.CKA_VALUE, UNWRAPPED_SECRET), (K.CKA_EXTRACTABLE, True)])
+    rv3, blob, n = p.wrap_key(s, Mech(K.CKM_AES_KEY_WRAP), wk, x)
+    assert not (rv or rv2 or rv3), (rv, rv2, rv3)
+    with open(os.path.join(wd, "blob.bin"), "wb") as f:
+        f.write(blob)
     p.finalize()
 
 
@@ -279,6 +297,7 @@ class Run(object):
     def __init__(self, p, slot, progs, sched, em, free=False):
         self.p, self.slot, self.progs, self.sched, self.em, self.free = p, slot, progs, sched, em, free
         self.shared = shared_family(progs)
+        self.blob = b""
         self.loglock = threading.Lock()
         self.events = []
         self.h2o = {}
@@ -324,6 +343,45 @@ class Run(object):
                 elif c == "createpriv":
                     # (no byte-string attribute: nothing to encrypt, the answer depends on the login state alone)
                     rv, g = p.create_object(s, [(K.CKA_CLASS, K.CKO_DATA), (K.CKA_TOKEN, False), (K.CKA_PRIVATE, True)])
+                    r.update(rv=rvname(rv))
+                elif c == "mksens":
+                    rvf, hs = p.find(s, [(K.CKA_ID, b"sk")])
+                    if hs:
+                        r.update(rv="EXISTS")
+                    else:
+                        rv, g = p.create_object(s, [(K.CKA_CLASS, K.CKO_SECRET_KEY), (K.CKA_KEY_TYPE, K.CKK_GENERIC_SECRET),
+                                                    (K.CKA_TOKEN, False), (K.CKA_PRIVATE, False), (K.CKA_ID, b"sk"),
+                                                    (K.CKA_LABEL, b"shared"), (K.CKA_VALUE, SENS_VALUE), (K.CKA_SENSITIVE, True),
+                                                    (K.CKA_EXTRACTABLE, False), (K.CKA_SIGN, True)])
+                        r.update(rv=rvname(rv))
+                elif c == "badset":
+                    rvf, hs = p.find(s, [(K.CKA_ID, b"sk")])
+                    if not hs:
+                        r.update(rv="NOKEY")
+                    else:
+                        rv = p.set_attrs(s, hs[0], [(K.CKA_LABEL, b"changed"), (K.CKA_SENSITIVE, False)])
+                        r.update(rv=rvname(rv) if rv in (0, K.CKR_ATTRIBUTE_READ_ONLY) else "NOKEY", err=rvname(rv))
+                elif c == "readsens":
+                    rvf, hs = p.find(s, [(K.CKA_ID, b"sk")])
+                    if not hs:
+                        r.update(rv="NOKEY")
+                    else:
+                        rv, raw = p.get_attrs_raw(s, hs[0], [K.CKA_VALUE], [64])
+                        buf = raw[0][1] if raw and raw[0] else b""
+                        leak = rv == 0 or any(SENS_VALUE[i:i + 8] in (buf or b"") for i in range(0, 25))
+                        if rv not in (0, K.CKR_ATTRIBUTE_SENSITIVE) and not leak:
+                            # the owner closed its session between the search and the read, or during the read (whatever
+                            # error the vanishing object produces: the model accepts it only if the key can have been gone)
+                            r.update(rv="NOKEY", err=rvname(rv))
+                        else:
+                            r.update(rv=rvname(rv), st="LEAK" if leak else "")
+                elif c == "unwrappriv":
+                    # (no byte-string attribute in the template but the identifier, which is looked for afterwards)
+                    rvf, hs = p.find(s, [(K.CKA_ID, b"wk")])
+                    rv, g = p.unwrap_key(s, Mech(K.CKM_AES_KEY_WRAP), hs[0] if hs else 0, self.blob,
+                                         [(K.CKA_CLASS, K.CKO_SECRET_KEY), (K.CKA_KEY_TYPE, K.CKK_GENERIC_SECRET),
+                                          (K.CKA_TOKEN, True), (K.CKA_PRIVATE, True), (K.CKA_SENSITIVE, False),
+                                          (K.CKA_EXTRACTABLE, True), (K.CKA_ENCRYPT, t % 2 == 1)])
                     r.update(rv=rvname(rv))
                 elif c == "sessinfo" and self.shared:
                     rv, si = p.session_info(s)
@@ -519,6 +577,9 @@ def execute(lib, p, sched, wd, template, progs, mode, schedule, em, b):
     if not free:
         sched.mode = mode
     run = Run(p, slot, progs, sched, em, free)
+    bf = os.path.join(template, "blob.bin")
+    if os.path.exists(bf):
+        run.blob = open(bf, "rb").read()
     em.emit(dict(e="Reset", b=b, n=len(progs), base=1))
     em.flush()
     hung = run.go()
@@ -544,8 +605,20 @@ def execute(lib, p, sched, wd, template, progs, mode, schedule, em, b):
         rv, base = p.open_session(slot, True)
         rv, si = p.session_info(base)
         good = [sym for sym in ("P0", "P1", "P2") if p.login(base, K.CKU_USER, PINS[sym]) == 0 and p.logout(base) == 0]
-        em.emit(dict(e="Final", st=p11.statename(si["state"]) if rv == 0 else "", pin=good[0] if len(good) == 1 else "?"))
+        # the private token keys that C_UnwrapKey calls have left: how many, how many with another value than the one that
+        # was wrapped; and (independent of the library) is that value anywhere in the token directory in clear?
+        nkeys = bad = 0
+        if good and p.login(base, K.CKU_USER, PINS[good[0]]) == 0:
+            r2, hs = p.find(base, [(K.CKA_CLASS, K.CKO_SECRET_KEY), (K.CKA_KEY_TYPE, K.CKK_GENERIC_SECRET), (K.CKA_TOKEN, True)])
+            for g in hs:
+                r3, d = p.get_attrs(base, g, [K.CKA_VALUE])
+                nkeys += 1
+                bad += 0 if (r3 == 0 and d.get(K.CKA_VALUE) == UNWRAPPED_SECRET) else 1
         p.finalize()
+        from . import tokdec
+        plain = len(tokdec.contains_plaintext(tok, [UNWRAPPED_SECRET]))
+        em.emit(dict(e="Final", st=p11.statename(si["state"]) if rv == 0 else "", pin=good[0] if len(good) == 1 else "?",
+                     nkeys=nkeys, bad=bad, plain=plain))
         return points
     # what is left afterwards (main thread, sequential)
     rv, hs = p.find(base, [(K.CKA_CLASS, K.CKO_SECRET_KEY)])
